@@ -76,7 +76,8 @@ func Single(t *testing.T, routerID string, p PeerSpec, out bool, delays []int64,
 
 // PrevSession is an earlier session of the peer under test (on the outbound
 // direction: of the same FSM object): Established with the given remote hold
-// time, then ended by the remote with a TCP close ("fin") or a Cease ("cease").
+// time, then ended by the remote with a TCP close ("fin"), a Cease ("cease") or a
+// Cease with a faulty header glued behind it ("cease+junk").
 type PrevSession struct {
 	Hold uint16 `json:"hold"`
 	End  string `json:"end"`
@@ -134,8 +135,17 @@ func SinglePrev(t *testing.T, routerID string, p PeerSpec, out bool, delays []in
 				setupErr = fmt.Errorf("earlier session %d (remote hold %d) did not establish", k, ps.Hold)
 				return
 			}
-			if ps.End == "cease" {
+			switch ps.End {
+			case "cease":
 				c.RemoteSend(wire.Notif{Code: 6, Sub: 4}.Frame(), nil)
+				w.Settle()
+			case "cease+junk":
+				// a header with a bad marker right behind the Cease, in the same
+				// segment: the session ends with the Cease, the rest is never
+				// looked at - and must not be remembered either
+				junk := wire.Keepalive()
+				junk[5] = 0
+				c.RemoteSend(append(wire.Notif{Code: 6, Sub: 4}.Frame(), junk...), nil)
 				w.Settle()
 			}
 			c.RemoteClose()
